@@ -133,6 +133,19 @@ def negatives(rng, uid):
         ("struct %s:\n  let %s = 1\n  0 [+1]  UInt  a\n" % (T, rng.choice(snake)), "reserved-word-as-virtual-field-name"),
     ]
     opts = [o for o in opts if o]
+    if rng.random() < 0.12:
+        # an explicit width after the type name must equal the field's size, whatever the type, container and width
+        # (0 included).  (Nothing documented relates an array field's size to length x element width, and the
+        # compiler accepts `0 [+3] UInt:32[3]`: not judged.)
+        in_bits = rng.random() < 0.5
+        fsize = rng.choice([1, 2, 3, 4, 5, 7, 8, 12, 16, 24, 32]) if in_bits else rng.choice([1, 2, 3, 4, 8])
+        fbits = fsize if in_bits else fsize * 8
+        ty = rng.choice(["UInt", "Int", "Bcd", E])
+        width = rng.choice([w for w in (0, 0, 0, 1, fbits - 1, fbits + 1, fbits * 2, 8, 16, 32, 64) if w != fbits and w >= 0])
+        pre = ("enum %s:\n  ONLY = 1\n" % E) if ty == E else ""
+        head = ("bits %s:" % B) if in_bits else ("struct %s:" % T)
+        return pre + "%s\n  0 [+%d]  %s:%d  a\n" % (head, fsize, ty, width), (
+            "explicit-size-0-in-nonempty-field" if width == 0 else "explicit-size-does-not-match-field")
     return rng.choice(opts)
 
 
